@@ -135,7 +135,17 @@ class C12(Prop):
             except Exception as e:
                 res = ["err", err_kind(e)]
             after = storelib.dump(store)
-            return {"before": before, "mid": mid, "after": after, "direct": direct, "qb": qb, "res": res, "second_read": ret}
+            # the same query text and window again after the bucket has changed: it must show the bucket as it is now
+            rerun = None
+            if case["events"]["b0"]:
+                mid_ev = case["events"]["b0"][0]
+                ds["b0"].insert(mk_event([None, mid_ev[1], mid_ev[2] + 1000, DATAS[0]]))
+                r2 = query2.query("q", 'RETURN = query_bucket("b0");', sd, ed, ds)
+                c2 = query2.query("q", 'RETURN = query_bucket_eventcount("b0");', sd, ed, ds)
+                rerun = {"qb": {"get": [ev_tuple(e) for e in r2], "count": c2},
+                         "direct": {"get": [ev_tuple(e) for e in ds["b0"].get(-1, sd, ed)], "count": ds["b0"].get_eventcount(sd, ed)}}
+            return {"before": before, "mid": mid, "after": after, "direct": direct, "qb": qb, "res": res, "second_read": ret,
+                    "rerun": rerun}
         finally:
             store.close()
 
@@ -189,6 +199,9 @@ class C12(Prop):
         if out.get("second_read") is not None and out["second_read"] != out["direct"]["b0"]["get"]:
             return (f"a second query_bucket(b0) inside the query returned {json.dumps(out['second_read'], ensure_ascii=False)[:300]}, "
                     f"the direct windowed read {json.dumps(out['direct']['b0']['get'], ensure_ascii=False)[:300]}")
+        if out.get("rerun") and out["rerun"]["qb"] != out["rerun"]["direct"]:
+            return (f"after an insert the same query_bucket(b0) query returned {json.dumps(out['rerun']['qb'], ensure_ascii=False)[:300]}, "
+                    f"the direct windowed read {json.dumps(out['rerun']['direct'], ensure_ascii=False)[:300]}")
         for b in ("b0", "b1"):
             if out["qb"][b] != out["direct"][b]:
                 return (f"query_bucket({b}) / eventcount {json.dumps(out['qb'][b])[:300]} differs from the direct windowed "
